@@ -208,6 +208,13 @@ class Conc(object):
     def _mac(self):
         rng = self.rng
         while True:
+            if rng.random() < 0.15:
+                # an ordinary address made of 00 and ff octets only (00:00:00:00:00:ff, ff:ff:ff:00:00:00): only the
+                # all-zero and the broadcast address are exempt
+                hx = [pick(rng, ["00", "ff"]) for _ in range(6)]
+                if len(set(hx)) == 2:
+                    break
+                continue
             hx = ["%02x" % rng.randrange(256) for _ in range(6)]
             if len(set(hx)) > 2:
                 break
@@ -444,6 +451,20 @@ def universe(case):
 
 
 _VS = {}
+_PS = {}
+
+
+def plain_spec(nored, noobf):
+    """A generated non-filterable registry point RegistryPoint(no_redact=.., no_obfuscate=[..]) with a simple_file
+    implementation, as the shipped spec sets declare their specs (the implementation inherits the point's settings)."""
+    key = (bool(nored), tuple(sorted(noobf)))
+    if key not in _PS:
+        from insights.core.spec_factory import RegistryPoint, SpecSet, simple_file
+        n = len(_PS)
+        specs = type("VerifPlainSpecs%d" % n, (SpecSet,), {"p": RegistryPoint(no_redact=key[0], no_obfuscate=list(key[1]))})
+        impl = type("VerifPlainImpl%d" % n, (specs,), {"p": simple_file("verif_src")})
+        _PS[key] = impl.p
+    return _PS[key]
 
 
 def filter_specs():
@@ -522,7 +543,9 @@ def run_spec(cleaner, spec, lines, path, tmp, tag, allow_obj=None):
         if out and out[-1] == "":
             out.pop()
         return out, True, False
-    if path in ("provider", "fileprovider"):
+    if path == "specprovider" and width:
+        path = "fileprovider"           # (the fixed-width mode goes by the file name)
+    if path in ("provider", "fileprovider", "specprovider"):
         root = os.path.join(tmp, "root-%s" % tag)
         os.makedirs(root)
         dst = os.path.join(root, "archive", "data", "spec")
@@ -531,6 +554,13 @@ def run_spec(cleaner, spec, lines, path, tmp, tag, allow_obj=None):
             if path == "provider":
                 prov = DatasourceProvider(list(texts), "insights_commands/" + name, root=root, ctx=ctx, cleaner=cleaner,
                                           no_obfuscate=noobf, no_redact=spec["nored"])
+            elif path == "specprovider":
+                ds = plain_spec(spec["nored"], noobf)
+                if ds.no_redact != bool(spec["nored"]) or sorted(ds.no_obfuscate) != sorted(noobf):
+                    raise RuntimeError("generated spec does not carry the exemptions of the case")
+                with open(os.path.join(root, "verif_src"), "w") as f:
+                    f.write("".join(t + "\n" for t in texts))
+                prov = TextFileProvider("verif_src", root=root, ds=ds, ctx=ctx, cleaner=cleaner)
             else:
                 class DS(object):
                     no_obfuscate = noobf
